@@ -13,14 +13,14 @@ from sx import extmodels, rt  # noqa: F401
 from sx.core import ctx
 from sx.values import SymBool, SymStr
 
-BOUNDS = {"quick": {"countries": "one per distinct table signature", "inputs": "all accepted IBANs of the country; all accepted BICs of length 8 and 11"},
-          "thorough": {"countries": "all", "inputs": "all accepted IBANs of the country; all accepted BICs of length 8 and 11"}}
+BOUNDS = {"quick": {"countries": "one per distinct table signature", "inputs": "all accepted IBANs of the country; all accepted BICs of every length 0..14"},
+          "thorough": {"countries": "all", "inputs": "all accepted IBANs of the country; all accepted BICs of every length 0..14"}}
 STUBS = ["as C01 / C04"]
 ASSUMPTIONS = ["reference positions = deep merge of the registry files read independently (spec/table.py)"]
 
 
 def jobs(tier, seed):
-    return [{"kind": "iban", "cc": cc} for cc in H.country_jobs(tier, seed)] + [{"kind": "bic", "L": 8}, {"kind": "bic", "L": 11}]
+    return [{"kind": "iban", "cc": cc} for cc in H.country_jobs(tier, seed)] + [{"kind": "bic", "L": L} for L in range(0, 15)]
 
 
 def neq(a, b):
@@ -120,7 +120,7 @@ def run_bic(L, res):
     def fn():
         from schwifty import BIC
 
-        chars = [rt.alnum_char(f"w{i}") for i in range(L)]
+        chars = [rt.compact_char(f"w{i}") for i in range(L)]
         holder["chars"] = chars
         x = BIC(H.symstr(chars))
         return {"bank": x.bank_code, "cc": x.country_code, "loc": x.location_code, "br": x.branch_code, "compact": x.compact}
@@ -136,7 +136,7 @@ def run_bic(L, res):
             ("bank_code wrong", neq(o["bank"], H.symstr(chars[0:4]))),
             ("country_code wrong", neq(o["cc"], H.symstr(chars[4:6]))),
             ("location_code wrong", neq(o["loc"], H.symstr(chars[6:8]))),
-            ("branch_code wrong", neq(o["br"], H.symstr(chars[8:11]) if L == 11 else "")),
+            ("branch_code wrong", neq(o["br"], H.symstr(chars[8:11]) if L > 8 else "")),
         ]
         for name, cond in checks:
             res["obligations"] += 1
